@@ -261,7 +261,17 @@ def handle (op : String) (j : Json) : R Json := do
   | "oracle" =>
     let ts ← (← arr j "targets").mapM asNatTriple
     let out ← (← arr j "out").mapM (fun p => asPair p asNat asNat)
-    pure (Json.mkObj [("exact", Json.bool (exactB ts out)), ("sorted", Json.bool (strictB out))])
+    -- the literal specification `countSel` on the query points (x, y, p, expected count)
+    let qs ← match j.getObjVal? "queries" with
+      | .ok v => (← asArr v).mapM (fun q => do
+          match ← asArr q with
+          | [a, b, c, e] => pure (← asNat a, ← asNat b, ← asNat c, ← asNat e)
+          | _ => .error "expected query")
+      | .error _ => pure []
+    let bad := qs.filter fun q => countSel out q.1 q.2.1 q.2.2.1 != q.2.2.2
+    pure (Json.mkObj [("exact", Json.bool (exactB ts out)), ("sorted", Json.bool (strictB out)),
+      ("bad", jList ((bad.take 3).map fun q => jNats [q.1, q.2.1, q.2.2.1, q.2.2.2,
+        countSel out q.1 q.2.1 q.2.2.1]))])
   | "chips" =>
     pure (jPairs (chipsOf (← nat j "r")))
   | "selects" =>
